@@ -360,6 +360,9 @@ class RTCIceTransport(AsyncIOEventEmitter):
         """
         if self.state != "closed":
             self.__setState("closed")
+            # a start() in progress keeps running connectivity checks for as long
+            # as more remote candidates may arrive: there will be none
+            await self.addRemoteCandidate(None)
             await self._connection.close()
             if self.__monitor_task is not None:
                 await self.__monitor_task
